@@ -18,7 +18,9 @@ RULE = ("cases = (generated schema, composite type, C++ object obtained by decod
         "type has a dynamic part, a limited array, or an optional / union slot; distinct = distinct hash of "
         "(schema text, type, value, op, k)")
 ASSUME = ["g++ 12 x86-64 with ASan+UBSan: an out-of-bounds write is reported by the sanitizer",
-          "objects are reached through decode() or default construction plus vector resizing (public members)"]
+          "objects are reached through decode() or default construction plus vector resizing (public members)",
+          "output buffers are 8-aligned heap blocks; arrays bound to a sizer hold no more elements than the sizer type "
+          "can count (the C++ side of finding P6b)"]
 
 
 class Campaign(cppcamp.FullCampaign):
